@@ -231,6 +231,39 @@ def check_case(case, acc, ref_cache=None):
     return "trained"
 
 
+def shared_second_fit(rows_s, tag, fdr_a, fdr_b, case, acc):
+    """ONE dataset object serves a model with train_fdr `fdr_a`, then a second model with `fdr_b`; the first fit call of the
+    second model is judged (start labels = targets accepted at fdr_b by a best feature)."""
+    psms_shared = make_psms(rows_s)
+    try:
+        try:
+            make_model("linear", first_only=False, max_iter=1, shuffle=False, rng=1, train_fdr=fdr_a).fit(psms_shared)
+        except RuntimeError as e:
+            if "performs worse" not in str(e):
+                raise
+        m2 = make_model("linear", first_only=False, max_iter=1, shuffle=False, rng=1, train_fdr=fdr_b)
+        try:
+            m2.fit(psms_shared)
+        except RuntimeError as e:
+            if "performs worse" not in str(e):
+                raise  # "performs worse" is judged elsewhere; here only the start labels (first fit call) matter
+        first_fit = [e for e in m2.estimator.log_ if e[0] == "fit"][:1]
+        if not first_fit:
+            raise RuntimeError("no fit call")
+        FDR_NOW[0] = fdr_b
+        sigs2 = []
+        check_logs(rows_s, first_fit, lambda sig, msg, **kw: sigs2.append((sig, msg)), "linear")
+        acc.count("shared_dataset_second_fits")
+        for sig, msg in sigs2[:1]:
+            acc.violation(Violation("second-model-on-same-dataset:" + sig, f"a second model (train_fdr {fdr_b}) fitted on a "
+                                    f"dataset object that already served a model with train_fdr {fdr_a} (table {tag}): {msg}",
+                                    dict(case, extras=True)))
+    except (RuntimeError, ValueError):
+        acc.count("shared_dataset_second_fit_refused")
+    finally:
+        FDR_NOW[0] = TRAIN_FDR
+
+
 def extras_case(case, acc):
     """Feature-column permutations at prediction time; save/load round trip."""
     from mokapot.model import save_model, load_model
@@ -265,28 +298,10 @@ def extras_case(case, acc):
     # ONE dataset object used to fit two models with different training FDRs: the second model's start labels must be
     # the targets accepted at ITS training FDR
     if case["kind"] == "linear":
-        psms_shared = make_psms(rows0)
-        try:
-            make_model("linear", first_only=False, max_iter=1, shuffle=False, rng=1, train_fdr=0.5).fit(psms_shared)
-            m2 = make_model("linear", first_only=False, max_iter=1, shuffle=False, rng=1, train_fdr=0.26)
-            try:
-                m2.fit(psms_shared)
-            except RuntimeError:
-                pass  # "performs worse" is judged elsewhere; here only the start labels (first fit call) matter
-            first_fit = [e for e in m2.estimator.log_ if e[0] == "fit"][:1]
-            if not first_fit:
-                raise RuntimeError("no fit call")
-            FDR_NOW[0] = 0.26
-            sigs2 = []
-            check_logs(rows0, first_fit, lambda sig, msg, **kw: sigs2.append((sig, msg)), "linear")
-            acc.count("shared_dataset_second_fits")
-            for sig, msg in sigs2[:1]:
-                acc.violation(Violation("second-model-on-same-dataset:" + sig, "a second model (train_fdr 0.26) fitted on a dataset "
-                                        f"object that already served a model with train_fdr 0.5: {msg}", dict(case, extras=True)))
-        except (RuntimeError, ValueError):
-            acc.count("shared_dataset_second_fit_refused")
-        finally:
-            FDR_NOW[0] = TRAIN_FDR
+        # the case's own rows, and two tables where the accepted targets differ between the two FDRs (5 vs 6)
+        for rows_s, tag in ((rows0, "own"), (base_rows(8, 10), "v10"), (base_rows(9, 11), "v11")):
+            for fdr_a, fdr_b in ((0.5, 0.26), (0.26, 0.5)):
+                shared_second_fit(rows_s, tag, fdr_a, fdr_b, case, acc)
     # The SAME Model object fitted again on the same PSMs with the feature columns in another order: what the model
     # predicts for its training rows must be what its estimator returned for those rows in the last training iteration
     # (features are matched by name, also after a second fit).  A re-fit starts from the trained model, so it is NOT
